@@ -832,6 +832,9 @@ class Crystal(object):
             # reconstruct `t` as a rational vector; if fail, kick out
             T = np.around(M*t).astype(int)
             if not self.__isclose__(t, T/M): continue
+            # the new cell [A t, a_i, a_j] must contain the old lattice: the smallest component divides M and the others
+            Tmin = min(abs(v) for v in T if v != 0)
+            if M % Tmin != 0 or np.any(T % Tmin != 0): continue
             t = T/M
             trans = True
             for atomlist, spinlist in zip(self.basis, spins):
